@@ -8,7 +8,7 @@ Hand-written, fixed, part of the trusted base; every definition carries the Pyth
 * **The JSON schema** is a Python value of the `visitor` domain (`V` of `Py/PreludeVisitor.lean`): nested
   insertion-ordered dictionaries with string keys, lists, strings, ints, floats (`V.num text`, the text is the
   `repr` of the literal), `None`.  All dictionary / list operations are the ones of that prelude, lifted into the
-  error monad of this domain (`getItem`, `setItem`, `delItem`, `appendTo`, `isIn`, `lenOf`).
+  error monad of this domain (`getItem`, `getOr`, `setItem`, `delItem`, `appendTo`, `isIn`, `lenOf`).
 * **Containers are values.**  `a[k1]…[kn] = v`, `a[k1]…[kn].append(x)`, `del a[k1]…[kn]` on a nested dictionary are
   `modPath`: read along the path (KeyError / TypeError as Python), change the innermost container, write the
   changed containers back under the same keys (an existing key keeps its position).  Sound because the translator's
@@ -107,6 +107,9 @@ def mkDict (items : List (String × V)) : V := .dict (Visitor.dictPutAll [] item
 
 /-- `c[k]` -/
 def getItem (c k : V) : M V := liftV (Visitor.pyGetItem c k)
+/-- `c.get(k, default)` (`c.get(k)` is `c.get(k, None)`): the value under `k` or the default; AttributeError when `c`
+is not a dictionary -/
+def getOr (c k dflt : V) : M V := liftV (Visitor.pyGet c k dflt)
 /-- `c[k] = v` (the changed container) -/
 def setItem (c k v : V) : M V := liftV (Visitor.pySetItem c k v)
 /-- `l.append(x)` (the changed list) -/
